@@ -78,6 +78,11 @@ def check_case(prop, sp, col, shard_name='corpus', max_paths=3000):
         col.violation('build_error', sp, D.exc_info(b.error), flags, where={'exc': type(b.error).__name__})
         return
     col.count('monitor_walk_cases')
+    # a connection choice that is still in the initialised graph: leaves are not comparable with the reference
+    # architectures (those include connection edges); only the infeasibility checks apply to such a case
+    conn_mode = bool(sp['conn']) and any(cn in b.dsg.graph.nodes for cn in b.conn.values())
+    if conn_mode:
+        col.count('cases_with_active_connection_choice')
     leaves = {}
     n_paths = 0
     n_infeasible = 0
@@ -121,6 +126,8 @@ def check_case(prop, sp, col, shard_name='corpus', max_paths=3000):
                                       flags)
             continue
         # --- feasible leaf ---
+        if conn_mode:
+            continue
         if sel_left:
             col.violation('selection_choice_left_in_leaf', sp, {'path': path, 'left': sel_left}, flags)
             continue
@@ -148,6 +155,8 @@ def check_case(prop, sp, col, shard_name='corpus', max_paths=3000):
                 col.violation('order_dependent_result', sp, {'assign': assign, 'paths': leaves.get(prev, [])[:1] +
                                                              [path]}, flags)
     got, want = set(leaves), set(ref)
+    if conn_mode:
+        got = want = set()
     if n_paths >= max_paths:
         col.count('walk_truncated')
         # truncated walk: only soundness
